@@ -98,18 +98,39 @@ def py_index(e):
 
 
 # ------------------------------------------------------------------ the calls
-def variants(case, real, opts):
+# homogeneity degree of the operations in their TT operands: with every operand scaled by 2^-60 (an exact scaling in binary
+# floating point) the result is the unit-scale result times 2^(-60 deg), exactly - magnitudes are inputs like any other
+SCALE_EXP = 60
+DEG = {"add": 1, "sub": 1, "mul": 2, "add_rev": 1, "sub_rev": 1, "mul_rev": 2, "neg": 1, "pos": 1, "conj": 1, "full": 1, "clone": 1,
+       "kron_none": 1, "to_ttm": 1, "diag_embed": 1, "diag_extract": 1, "t": 1, "mul_s": 1, "rmul_s": 1, "div_s": 1, "kron": 2,
+       "matvec": 2, "vecmat": 2, "matmat": 2, "norm2": 2, "norm": 1, "sum_all": 1, "dot": 2, "bilinear": 3, "matdense": 1,
+       "sum_axes": 1, "dot_axes": 2, "index": 1, "index_m": 1, "apply_mask": 1, "cat": 1, "cat3": 1, "mprod": 1, "mprod_rep": 1}
+
+
+def scale_deg(case):
+    op = case["op"]
+    if case.get("s", {}).get("kind") in ("tiny", "intbig"):
+        return None          # (2^-100 times 2^-60 underflows float32; 2^24+1 is not exactly scalable in float32)
+    if op in ("pad", "pad_m"):
+        return 1 if float(case.get("val", 0)) == 0.0 else None
+    return DEG.get(op)
+
+
+def variants(case, real, opts, tiny=False):
     """list of (label, operands, thunk, dtype, scalar) - each thunk performs the public call once"""
     tt = _tt()
     op = case["op"]
     out = []
+
+    def shrink(T):
+        return tt.TT([T.cores[0] * 2.0 ** -SCALE_EXP] + [c.clone() for c in T.cores[1:]]) if (tiny and T is not None) else T
 
     def mk():
         X = build(case["x"], real)
         dt = X.cores[0].dtype
         Y = build(case["y"], real) if isinstance(case.get("y"), dict) and "I" in case["y"] else None
         Z = build(case["z"], real) if isinstance(case.get("z"), dict) and "I" in case["z"] else None
-        return X, Y, Z, dt
+        return shrink(X), shrink(Y), shrink(Z), dt
 
     X, Y, Z, dt = mk()
     s = scalar_value(case["s"], dt) if "s" in case else None
@@ -192,6 +213,11 @@ def variants(case, real, opts):
         out.append(("", [], lambda: tt.meshgrid(vs)[case["q"] - 1], dt, s))
     else:
         raise ValueError("no binding for model operation %r" % op)
+    if tiny:
+        return [("tiny" + ("-" + lb if lb else ""), o, th, d_, s_) for lb, o, th, d_, s_ in out]
+    deg = scale_deg(case)
+    if deg is not None and opts.get("tiny", True) and not (real == "f32" and deg >= 3):
+        out += variants(case, real, opts, tiny=True)
     if op in TRACKABLE and opts.get("tracked", True):
         # the same calls with autograd tracking switched on for every operand (other code path in norm)
         X2, Y2, Z2, _ = mk()
@@ -304,6 +330,9 @@ def _run_variant(case, res, real, prop, stats, label, ops, thunk, dt, s):
     t = res["t"]
     tol = res.get("tol", "exact")
     tracked = label == "tracked"
+    back = 2.0 ** (SCALE_EXP * scale_deg(case)) if label.startswith("tiny") else None      # exact undo of the operand scaling
+    if back is not None and case["op"] == "norm":
+        back = 2.0 ** SCALE_EXP
     if t == "num":
         if isinstance(out, tt.TT):
             problems.append(P(prop, "kind", case, "expected a number, got a TT object with N=%s" % out.N, real))
@@ -320,6 +349,8 @@ def _run_variant(case, res, real, prop, stats, label, ops, thunk, dt, s):
             except Exception:   # noqa
                 problems.append(P(prop, "kind", case, "expected a number, got %s" % type(out).__name__, real))
                 return problems
+        if back is not None:
+            v = v * back
         e = complex(res["re"], res["im"])
         if case["op"] == "norm":
             e = complex(abs(e) ** 0.5, 0)
@@ -340,7 +371,7 @@ def _run_variant(case, res, real, prop, stats, label, ops, thunk, dt, s):
             problems.append(P(prop, "shape", case, "dense shape %s, expected %s" % (list(out.shape), list(res["sh"])), real))
         elif out.dtype != dt:
             problems.append(P(prop, "dtype", case, "dtype %s, expected %s" % (out.dtype, dt), real))
-        elif not torch.equal(out.detach(), exp):
+        elif not torch.equal(out.detach() * back if back is not None else out.detach(), exp):
             problems.append(P(prop, "value", case, "dense value differs, max |diff| %.3g" % (out.detach() - exp).abs().max().item(), real))
         return problems
     # object results ("obj": ranks prescribed; "val": only kind, shape, value - ranks if the model gives R)
@@ -376,6 +407,8 @@ def _run_variant(case, res, real, prop, stats, label, ops, thunk, dt, s):
         got = got * s
     if case.get("s", {}).get("kind") == "tiny":
         got = got * 2.0 ** 100          # exact: undo the power-of-two scaling of the scalar
+    if back is not None:
+        got = got * back
     got = got.to(dt) if got.dtype != dt else got
     if list(got.shape) != list(exp.shape):
         problems.append(P(prop, "shape", case, "dense shape %s expected %s" % (list(got.shape), list(exp.shape)), real))
